@@ -83,7 +83,8 @@ Apply(s, e) ==
             [] e.op = "push" ->
                  LET new == [bits |-> NoBits(tr.m), n |-> 0] IN
                  [s EXCEPT !.subs = IF tr.kind = "rbf" /\ Len(@) >= tr.qmax THEN Append(Tail(@), new) ELSE Append(@, new)]
-            [] OTHER -> [s EXCEPT !.subs = Tail(@)])
+            [] OTHER -> [s EXCEPT !.subs = IF Len(@) > 1 THEN Tail(@) ELSE @])      \* pop; total: a pop the model cannot take (the recorder pops when the
+                                                                                    \* CODE reports more than one filter) leaves the state, the bytes then differ
     [] tr.kind = "cko" ->      \* histories without evictions only: first bucket with room
          (LET f == ps[1]  i1 == ps[2] + 1  i2 == ps[3] + 1 IN
           CASE e.op = "add" ->
